@@ -218,7 +218,7 @@ def conc_workload(tier, seed, path):
 
 
 def perturb_workload(tier, seed, path):
-    eps = _mixed(seed + 61, 40 if tier == 'quick' else 600, big=(tier != 'quick'))
+    eps = _mixed(seed + 61, 20 if tier == 'quick' else 300, big=(tier != 'quick'))
     return enc_gen.write(path, eps)
 
 
